@@ -28,10 +28,20 @@ FILES = (
     + ['doc.md'])
 
 
+_PROGRAMS = dict()   # parsed trees of this process (scratch copies are
+                     # never edited after they were parsed)
+
+
 def analyse(pid, repo, only_rules=None):
     """Run the rules of `pid` on `repo`; return the `Result`."""
     meta = props.PROPS[pid]
-    program = frontend.Program(repo, need_cython=meta.get('cython', False))
+    key = (os.path.abspath(repo), meta.get('cython', False))
+    if key not in _PROGRAMS:
+        if len(_PROGRAMS) > 4:
+            _PROGRAMS.clear()
+        _PROGRAMS[key] = frontend.Program(
+            repo, need_cython=meta.get('cython', False))
+    program = _PROGRAMS[key]
     result = report.Result(pid, 'quick')
     import io
     import contextlib
@@ -149,7 +159,7 @@ def seeded_variants(pid):
         if not (os.path.exists(mp) and os.path.exists(pp)):
             continue
         meta = json.load(open(mp))
-        if meta.get('property') != pid:
+        if meta.get('property') != pid or meta.get('obsolete'):
             continue
         # a change that the check of its property is not recorded (by
         # tools/seeded.py recheck) as catching is a documented miss: it is
